@@ -32,6 +32,7 @@ Record sarch := SA {
   sa_created : list handle;   (* event logs since the last clear *)
   sa_destroyed : list handle;
   sa_synced : bool;           (* false after a removal whose entity the trace does not identify *)
+  sa_evok : bool;             (* false when a clear happened while such a removal was still unidentified *)
 }.
 
 Definition sworld := list sarch.
@@ -144,21 +145,21 @@ Definition set_sworld (st : sstate) (w : sworld) : sstate :=
 Definition set_sarch (st : sstate) (w : sworld) (a : nat) (x : sarch) : sstate := set_sworld st (<[a := x]> w).
 
 Definition with_live (x : sarch) (l : list sent) : sarch :=
-  SA l (sa_cap x) (sa_cap_exact x) (sa_rem x) (sa_cre x) (sa_created x) (sa_destroyed x) (sa_synced x).
+  SA l (sa_cap x) (sa_cap_exact x) (sa_rem x) (sa_cre x) (sa_created x) (sa_destroyed x) (sa_synced x) (sa_evok x).
 
 (** Remove an entity (by handle) from an archetype: one more removal, logged. *)
 Definition sarch_remove (x : sarch) (h : handle) : sarch :=
   SA (remove_sent h (sa_live x)) (sa_cap x) (sa_cap_exact x) (S (sa_rem x)) (sa_cre x)
-     (sa_created x) (sa_destroyed x ++ [h]) (sa_synced x).
+     (sa_created x) (sa_destroyed x ++ [h]) (sa_synced x) (sa_evok x).
 
 (** A removal of an entity the trace does not identify. *)
 Definition sarch_remove_unknown (x : sarch) : sarch :=
-  SA (sa_live x) (sa_cap x) (sa_cap_exact x) (S (sa_rem x)) (sa_cre x) (sa_created x) (sa_destroyed x) false.
+  SA (sa_live x) (sa_cap x) (sa_cap_exact x) (S (sa_rem x)) (sa_cre x) (sa_created x) (sa_destroyed x) false (sa_evok x).
 
 Definition sarch_add (x : sarch) (h : handle) (vs : list val) : sarch :=
   let grown := negb (length (sa_live x) <? sa_cap x) in
   SA (sa_live x ++ [SE h vs]) (sa_cap x) (sa_cap_exact x && negb grown) (sa_rem x) (S (sa_cre x))
-     (sa_created x ++ [h]) (sa_destroyed x) (sa_synced x).
+     (sa_created x ++ [h]) (sa_destroyed x) (sa_synced x) (sa_evok x).
 
 Definition set_val (x : sarch) (h : handle) (col : nat) (v : N) : sarch :=
   with_live x ((fun e => if heqb (se_h e) h then SE (se_h e) (<[col := v]> (se_vals e)) else e) <$> sa_live x).
@@ -336,7 +337,7 @@ Definition spec_step (cfg : config) (d : wdecl) (qs : list (list qparam)) (st : 
   | ONew caps =>
       match obs with
       | [1%N; i] =>
-          inr (SS (s_worlds st ++ [Some ((fun c => SA [] c true 0 0 [] [] true) <$> caps)]) (s_wissued st ++ [[]])
+          inr (SS (s_worlds st ++ [Some ((fun c => SA [] c true 0 0 [] [] true true) <$> caps)]) (s_wissued st ++ [[]])
                   (N.to_nat i) (s_issued st) (s_directs st) (s_inexact st) (s_presets st) (s_clone_armed st) (s_drop_armed st))
       | [2%N; 2%N] => if existsb (fun c => N.ltb MAX_DATA_CAPACITY (N.of_nat c)) caps then inr st else fail 12 1
       | _ => fail 12 2
@@ -702,8 +703,11 @@ Definition spec_step (cfg : config) (d : wdecl) (qs : list (list qparam)) (st : 
           else
             (* resynchronise after a removal the trace did not identify: the rows must be old entities *)
             if negb (forallb (fun r => existsb (fun e => lNeqb (sent_row e) r) (sa_live x)) rs) then fail 6 4
-            else inr (set_sarch st w a (SA ((fun r => SE (default 0%N (r !! 0), default 0%N (r !! 1)) (drop 2 r)) <$> rs)
-                                           (sa_cap x) (sa_cap_exact x) (sa_rem x) (sa_cre x) (sa_created x) (sa_destroyed x) true))
+            else
+              (* the entities that disappeared are the ones the unidentified removals destroyed: log them now *)
+              let gone := se_h <$> filter (fun e => existsb (fun r => lNeqb (sent_row e) r) rs = false) (sa_live x) in
+              inr (set_sarch st w a (SA ((fun r => SE (default 0%N (r !! 0), default 0%N (r !! 1)) (drop 2 r)) <$> rs)
+                                        (sa_cap x) (sa_cap_exact x) (sa_rem x) (sa_cre x) (sa_created x) (sa_destroyed x ++ gone) true (sa_evok x)))
       | _, _ => inr st
       end
   | OIter q borrow break_at panic_at delta =>
@@ -862,7 +866,7 @@ Definition spec_step (cfg : config) (d : wdecl) (qs : list (list qparam)) (st : 
           else if N.ltb cp ln then fail 12 12
           else if N.to_nat cp <? sa_cap x then fail 12 13                                           (* capacity decreased *)
           else if sa_cap_exact x && negb (N.to_nat cp =? sa_cap x) then fail 12 14                  (* capacity changed without need *)
-          else inr (set_sarch st w a (SA (sa_live x) (N.to_nat cp) true (sa_rem x) (sa_cre x) (sa_created x) (sa_destroyed x) (sa_synced x)))
+          else inr (set_sarch st w a (SA (sa_live x) (N.to_nat cp) true (sa_rem x) (sa_cre x) (sa_created x) (sa_destroyed x) (sa_synced x) (sa_evok x)))
       | _, _ => inr st
       end
   | ODump a => inr st
@@ -876,7 +880,7 @@ Definition spec_step (cfg : config) (d : wdecl) (qs : list (list qparam)) (st : 
                | Some x =>
                    let exp := N.of_nat (length (sa_created x)) :: concat (o_handle <$> sa_created x)
                               ++ N.of_nat (length (sa_destroyed x)) :: concat (o_handle <$> sa_destroyed x) in
-                   if negb (sa_synced x) then inr st
+                   if negb (sa_synced x && sa_evok x) then inr st
                    else if lNeqb obs exp then inr st
                    else
                      (* order inside a log is not part of the property: compare as multisets *)
@@ -895,7 +899,7 @@ Definition spec_step (cfg : config) (d : wdecl) (qs : list (list qparam)) (st : 
                | None => inr st
                end
            | LWorld =>
-               if negb (forallb sa_synced w) then inr st else
+               if negb (forallb (fun x => sa_synced x && sa_evok x) w) then inr st else
                let chk (logs : list handle) (obs : list N) : option (list N) :=
                  match obs with
                  | n :: r =>
@@ -918,7 +922,7 @@ Definition spec_step (cfg : config) (d : wdecl) (qs : list (list qparam)) (st : 
       if negb (events cfg) then inr st
       else match l with
            | LArch a => match w !! a with
-                        | Some x => inr (set_sarch st w a (SA (sa_live x) (sa_cap x) (sa_cap_exact x) (sa_rem x) (sa_cre x) [] [] (sa_synced x)))
+                        | Some x => inr (set_sarch st w a (SA (sa_live x) (sa_cap x) (sa_cap_exact x) (sa_rem x) (sa_cre x) [] [] (sa_synced x) (sa_synced x)))
                         | None => inr st end
            | LWorld => inr (set_sworld st ((fun x => SA (sa_live x) (sa_cap x) (sa_cap_exact x) (sa_rem x) (sa_cre x) [] [] (sa_synced x)) <$> w))
            end
